@@ -23,7 +23,7 @@ META = {
         'int(xmax - xmin + 1) positions in unit steps offset by xmin; C13.BASIS-FRESH - func_fit scales the basis array in place, so '
         'every basis function returns a freshly allocated array (no memo decorator, no module-level cache). NOT decided: that the '
         'bases equal the textbook polynomials (delegated to scipy; numerical), least-squares optimality, exact recovery.'),
-    'floors': {'C13.FLOAT-BASIS': 1, 'C13.REGISTRY': 3, 'C13.XNORM': 4, 'C13.FIXED-LAST': 3, 'C13.WEIGHTS': 3, 'C13.GRID': 2, 'C13.BASIS-FRESH': 4, 'C13.YFIT-ALL': 3},
+    'floors': {'C13.FIT-ONCE': 1, 'C13.FLOAT-BASIS': 1, 'C13.REGISTRY': 3, 'C13.XNORM': 4, 'C13.FIXED-LAST': 3, 'C13.WEIGHTS': 3, 'C13.GRID': 2, 'C13.BASIS-FRESH': 4, 'C13.YFIT-ALL': 3},
 }
 
 TRACE = 'pydl/pydlutils/trace.py'
@@ -263,7 +263,39 @@ def check_float_basis(ctx, repo, resolved):
                           'are truncated to integers (P2(0) becomes 0)' % (q, src(dt)), construct='%s basis dtype %s' % (q, src(dt)))
 
 
+def check_fit_once(ctx, repo):
+    """C13.FIT-ONCE: the fit / reject loop of TraceSet.__init__ runs at least once for every maxiter >= 0 (maxiter = 0 means
+    'fit, no rejection'); evaluated by folding the loop test on the initial values of its variables with maxiter = 0."""
+    from ..astutil import fold, NoFold
+    f = repo.func(TRACE, 'TraceSet.__init__')
+    fa = FA(f)
+    loops = [n for n in walk_local(f.node) if isinstance(n, ast.While) and any(isinstance(c, ast.Call) and call_name(c) == 'func_fit' for c in walk_local(n))]
+    ctx.need(loops, 'TraceSet.__init__: fit loop not found')
+    for lp in loops:
+        names = {x.id for x in ast.walk(lp.test) if isinstance(x, ast.Name)}
+        env = {}
+        for nm in names:
+            if nm == 'maxiter':
+                env[nm] = 0
+                continue
+            inits = [st for st in walk_local(f.node) if isinstance(st, ast.Assign) and src(st.targets[0]) == nm and st.lineno < lp.lineno
+                     and not any(a is lp for a in ancestors(st))]
+            if inits:
+                try:
+                    env[nm] = fold(inits[-1].value)
+                except NoFold:
+                    pass
+        try:
+            first = bool(fold(lp.test, env=env))
+        except NoFold as e:
+            raise AnalysisError('C13: TraceSet.__init__: the loop test `%s` cannot be evaluated on its initial values (%s)' % (src(lp.test), e))
+        ctx.check('C13.FIT-ONCE', first, f, lp, 'with maxiter = 0 the loop test `%s` holds on entry (%s): func_fit is called once' % (src(lp.test), env),
+                  msg='with maxiter = 0 the loop test `%s` is false on entry (%s): func_fit is never called and every trace keeps all-zero coefficients'
+                      % (src(lp.test), env), construct='fit loop skipped for maxiter=0: ' + src(lp.test))
+
+
 def run(ctx):
+    check_fit_once(ctx, ctx.repo)
     resolved = check_registry(ctx, ctx.repo)
     check_xnorm(ctx, ctx.repo)
     check_func_fit(ctx, ctx.repo)
